@@ -418,7 +418,7 @@ def st_spline_simple(draw, ndim=None):
             "seed": draw(SEED)}
 
 
-TAU_SIMPLE = (2e-3, 6e-2)
+TAU_SIMPLE = (2e-3, 1e-1)
 
 
 def _spline_simple(case, ctx):
@@ -468,7 +468,8 @@ _RULE_SPLINE = ("error e(d) = max|f_spline - f_python| / (sum|alpha| * sum of th
                "points inside the bounds, range/l up to 6/4/2 for 1/2/3 dimensions; " + _RULE_SPLINE +
                "non-trivial = >= 2 active dimensions",
           tolerances={"tau_value": TAU_SIMPLE[0], "tau_gradient": TAU_SIMPLE[1],
-                      "calibration": "max over seeds 1-5 quick tier on the unchanged tree: see report"})
+                      "calibration": "largest e(16) over VERIF_SEED 1-5 (quick tier, unchanged tree): value 3.4e-4, gradient "
+                                     "2.0e-2 (natural-spline end conditions make the error O(h^2) / O(h) at the bounds); x5 margin"})
 def spline_simple(case, ctx):
     _spline_simple(case, ctx)
 
@@ -477,6 +478,8 @@ def spline_simple(case, ctx):
 def st_spline_additive(draw, dterm=None):
     """additive kernels as kernel_tools.get_agpr_kernel builds them, plus SubsetAddRQ / SubsetAddLLRBF"""
     kind = draw(st.sampled_from(["arbf", "arbf", "arbf+single", "arbf+single", "addrq", "addllrbf"]))
+    if dterm == 4:
+        kind = "arbf+single"  # the only 4-dimensional additive term: one single times a triple (orders > 3 are rejected)
     ns = 1 if kind == "arbf+single" else 0
     if dterm is None:
         order = draw(st.integers(0 if kind != "arbf+single" else 0, 3 - ns))
@@ -516,7 +519,7 @@ def build_additive(case):
                length_scale_bounds="fixed", scale_bounds="fixed")
 
 
-TAU_ADD = {"arbf": (2e-3, 6e-2), "arbf+single": (2e-3, 6e-2), "addrq": (2e-3, 6e-2), "addllrbf": (2e-3, 6e-2)}
+TAU_ADD = {"arbf": (2e-3, 1e-1), "arbf+single": (2e-3, 1e-1), "addrq": (2e-3, 1e-1), "addllrbf": (2e-3, 1e-1)}
 
 
 def _spline_additive(case, ctx):
@@ -528,6 +531,14 @@ def _spline_additive(case, ctx):
     acols = G.resolve(case["aidx"], n1)
     scols = G.resolve(case["sidx"], n1) if case["sidx"] is not None else []
     kernel = G.guard(ctx, ("kernel_constructor", kind), lambda: build_additive(case), always=True)
+    ref_kernel = kernel
+    if order == 0:
+        # single x order-0 ARBF is scale_0 * RBF(singles); the order-0 ARBF object itself returns python scalars
+        # (C15), so the reference is written as the equivalent constant-times-RBF kernel
+        from ciderpress.models import kernels as K
+
+        sind = G.mk_index(case["sidx"])
+        ref_kernel = K.DiffConstantKernel(case["scale"][0]) * K.SubsetRBF(sind, length_scale=np.array(case["ls"])[sind])
     fl = G.build_featlist(case["maps"])
     lo, hi = G.feature_bounds(case["maps"])
     rng = rng_from(case["seed"])
@@ -565,7 +576,7 @@ def _spline_additive(case, ctx):
             ctx.close(ret[4], case["scale"][0] * float(np.sum(alpha)), ("constant_term", cls), rtol=1e-12,
                       scale=case["scale"][0] * float(np.sum(np.abs(alpha))))
 
-    errs, gerrs = spline_errors(ctx, case, kernel,
+    errs, gerrs = spline_errors(ctx, case, ref_kernel,
                                 lambda d: mt.get_mapped_gp_evaluator_additive(kernel, Xc, alpha, fl, srbf_density=d, arbf_density=d),
                                 Xc, alpha, lo, hi, S, Sg, cls, expect)
     judge_spline(ctx, errs, gerrs, kind, *TAU_ADD[kind])
@@ -578,7 +589,7 @@ def _spline_additive(case, ctx):
                "other so that every order matters; reference from the Python kernel; " + _RULE_SPLINE +
                "the additive constant (scale_0 sum alpha) and the per-term scale list against itertools.combinations order; "
                "non-trivial = order >= 2 or >= 2 additive dimensions",
-          tolerances={"tau": str(TAU_ADD)})
+          tolerances={"tau": str(TAU_ADD), "calibration": "largest e(16) over VERIF_SEED 1-5: value 2.6e-4, gradient 1.7e-2; x5 margin"})
 def spline_additive(case, ctx):
     _spline_additive(case, ctx)
 
@@ -715,7 +726,7 @@ def st_whole(draw):
             "add": draw(st.sampled_from(["ZERO", "LDA_X"])), "seed": draw(SEED)}
 
 
-TAU_WHOLE_SPLINE = 5e-3
+TAU_WHOLE_SPLINE = 1e-2
 
 
 @subcheck("C11", "whole_path", st_whole, quick=500, thorough=6000,
@@ -726,7 +737,9 @@ TAU_WHOLE_SPLINE = 5e-3
                "documents (SEP: per spin channel, baseline of that channel / nspin, summed); C/Python plans at 1e-11, spline "
                "plan within the calibrated spline error; derivative wrt every raw feature vs finite differences of the mapped "
                "value itself (C/Python plans); non-trivial = nctrl >= 2 and a density-dependent baseline or nspin = 2",
-          tolerances={"rtol_exact": 1e-11, "tau_spline": TAU_WHOLE_SPLINE, "fd_rtol": 1e-6})
+          tolerances={"rtol_exact": 1e-11, "tau_spline": TAU_WHOLE_SPLINE, "fd_rtol": 1e-6,
+                      "calibration": "spline plan at the plan's own density 8: largest error over VERIF_SEED 1-5 is 1.9e-3 of "
+                                     "sum|alpha| * sum of term scales * |baseline|; x5 margin"})
 def whole_path(case, ctx):
     from ciderpress.dft import baselines
     from ciderpress.dft.xc_evaluator import KernelEvaluator, RBFEvaluator, SpinRBFEvaluator
@@ -759,6 +772,23 @@ def whole_path(case, ctx):
              "spline_exchange": arbf_exchange.mapping_plan}
     mapped = G.guard(ctx, ("map", mode, plan), lambda: dk.map(plans[plan]), always=True)
     X0T = np.exp(rng.uniform(np.log(0.05), np.log(3.0), (nspin, n0, ns)))
+    if ns == 2 and nspin == 1 and mode != "POL":
+        # a block of exactly two samples with nspin = 1 has the shape apply_descriptor_grad(force_polarize=True) tests for
+        # spin; whatever goes wrong in that block shape is one structural class
+        ctx.event("two_sample_block")
+        try:
+            _whole_compare(case, ctx, dk, mapped, X0T, mulf, addf)
+        except Violation as v:
+            raise Violation((ctx.sc.name, "two_sample_block_nspin1", mode, v.sig[1]), dict(v.detail, original_signature=list(v.sig)))
+        return
+    _whole_compare(case, ctx, dk, mapped, X0T, mulf, addf)
+
+
+def _whole_compare(case, ctx, dk, mapped, X0T, mulf, addf):
+    from math import comb
+
+    mode, plan, nspin = case["mode"], case["plan"], case["nspin"]
+    n0, n1, ns = case["n0"], case["n1"], case["nsamp"]
 
     def ref(x0t):
         kk = dk.get_k(x0t)
@@ -774,7 +804,10 @@ def whole_path(case, ctx):
 
     want = ref(X0T)
     res, dres = G.guard(ctx, ("call", mode, plan), lambda: mapped(X0T.copy()), always=True)
-    S = float(np.sum(np.abs(dk.alpha))) * case["scale"] ** (2 if mode == "POL" else 1) * max(1.0, float(np.max(np.abs(mulf(X0T)[0])))) \
+    terms = case["scale"] ** (2 if mode == "POL" else 1)
+    if plan == "spline_exchange":
+        terms = 1e-5 + 1e-5 * (n1 - 1) + case["scale"] * comb(n1 - 1, 2)
+    S = float(np.sum(np.abs(dk.alpha))) * terms * max(1.0, float(np.max(np.abs(mulf(X0T)[0])))) \
         + float(np.max(np.abs(addf(X0T)[0]))) + 1e-300
     ctx.check(np.shape(res) == (ns,), ("value_shape", mode, plan), got=np.shape(res))
     ctx.check(np.shape(dres) == X0T.shape, ("gradient_shape", mode, plan), got=np.shape(dres))
@@ -785,8 +818,6 @@ def whole_path(case, ctx):
         return
     ctx.close(res, want, ("value", mode, plan), rtol=1e-11, scale=S)
     gmax = float(np.max(np.abs(dres)))
-    if mode == "POL" and nspin == 1:
-        return  # restricted-input derivative convention of POL mode: see C15 dft_kernel
     for s in range(nspin):
         for i in range(n0):
             h = 1e-4 * X0T[s, i]
